@@ -505,6 +505,11 @@ def k_ref_malformed(f, rng):
             r.cells[pick(rng, hs) if hs else where] = "x " + bad
         else:
             r.cells[where] = bad
+    if rng.random() < 0.3 and f.choices:
+        # the very same text also sits in a cell where reference syntax is not checked (a choice name): irrelevant to the verdict on this cell
+        full = r.cells.get(where, bad) if where not in ("repeat_count", "calculation", "trigger", "choice_filter") else bad
+        f.choices.setdefault("unused_list_zz", []).append({"name": full, "label": "same text as a choice name"})  # an unused list: no select's rules apply to it
+        where += "+same-text-as-choice-name"
     e = Exp(r"On the 'survey' sheet, the '[^']+' value is invalid\. Reference expressions must only include question names", "row", row=r,
             alt_patterns=(r"There is no survey element with this name",))
     e.column = where
